@@ -9,8 +9,10 @@ Transcribed from
                                  set_location_/advance_location_/value_at_location_/calc_gradient_, data_range, is_aliased_
   include/adept/FixedArray.h     the same loops with compile-time extents (no alias test)
   include/adept/Expression.h     next_value_and_gradient(_contiguous/_special), scalar_value_and_gradient
-  include/adept/BinaryOperation.h Add, Subtract, Multiply, Divide (calc_left/calc_right, with and without multiplier)
-  include/adept/UnaryOperation.h UnaryMinus          include/adept/noalias.h   NoAlias
+  include/adept/BinaryOperation.h Add, Subtract, Multiply, Divide (calc_left/calc_right, with and without multiplier),
+                                 Max, Min (max/fmax, min/fmin: operation, is_left, calc_left/calc_right)
+  include/adept/UnaryOperation.h UnaryMinus, Abs/Fabs (ADEPT_DEF_UNARY_FUNC: operation, derivative)
+  include/adept/noalias.h        NoAlias
   include/adept/IndexedArray.h   set_location_/advance_location_ (source), assign_expression_/assign_inactive_scalar_/
                                  operator=(Active) (target), advance_index, translate_coords_
   include/adept/where.h          Where::operator= (plain and either_or)
@@ -95,9 +97,15 @@ inductive SExpr (R : Type)
   | div (a b : SExpr R)
   | neg (a : SExpr R)
   | noalias (a : SExpr R)
+  | max (a b : SExpr R)        -- policy class Max (functions max, fmax)
+  | min (a b : SExpr R)        -- policy class Min (functions min, fmin)
+  | abs (a : SExpr R)          -- Abs, Fabs
 deriving Repr
 
-variable [Add R] [Sub R] [Mul R] [Div R] [Neg R] [One R]
+variable [Add R] [Sub R] [Mul R] [Div R] [Neg R] [One R] [LT R] [DecidableLT R]
+
+/-- `Abs::derivative`: `(val>0.0)-(val<0.0)` -/
+def sgn (x : R) : R := (if 0 < x then 1 else 0) - (if x < 0 then 1 else 0)
 
 /-- value_at_location_store_: Divide::operation_store computes `left * (1/right)` -/
 def SExpr.eval (m : Mem R) : SExpr R → R
@@ -109,6 +117,10 @@ def SExpr.eval (m : Mem R) : SExpr R → R
   | .div a b => a.eval m * (1 / b.eval m)
   | .neg a => -(a.eval m)
   | .noalias a => a.eval m
+  -- Max::operation `left < right ? right : left` (= fmax on numbers), Min::operation `left < right ? left : right`
+  | .max a b => if a.eval m < b.eval m then b.eval m else a.eval m
+  | .min a b => if a.eval m < b.eval m then a.eval m else b.eval m
+  | .abs a => if a.eval m < 0 then -(a.eval m) else a.eval m
 
 /-- calc_gradient_ without (`none`) / with (`some w`) an incoming multiplier: the `push_rhs` calls in order.
     A passive leaf pushes nothing, so the `is_active` guards of calc_left_/calc_right_ need no separate case. -/
@@ -127,6 +139,18 @@ def SExpr.grad (m : Mem R) : SExpr R → Option R → List (R × Nat)
     b.grad m (some (match w with | none => -res * inv | some w => -w * res * inv))
   | .neg a, w => a.grad m (some (match w with | none => -1 | some w => -w))
   | .noalias a, w => a.grad m w
+  -- Max: `is_left` = `left > right`, both operands read at THEIR OWN location (`MyArrayNum` / `MyArrayNum+L::n_arrays`);
+  -- calc_left pushes the left operand iff is_left, calc_right the right operand iff !is_left (a tie goes to the right);
+  -- the incoming multiplier is handed on unchanged
+  | .max a b, w =>
+    let isLeft := decide (b.eval m < a.eval m)
+    (if isLeft then a.grad m w else []) ++ (if isLeft then [] else b.grad m w)
+  -- Min: `is_left` = `left <= right` (a tie goes to the left)
+  | .min a b, w =>
+    let isLeft := !decide (b.eval m < a.eval m)
+    (if isLeft then a.grad m w else []) ++ (if isLeft then [] else b.grad m w)
+  -- UnaryOperation::calc_gradient_: `derivative(val, result)` resp. `multiplier*derivative(val, result)`
+  | .abs a, w => a.grad m (some (match w with | none => sgn (a.eval m) | some w => w * sgn (a.eval m)))
 
 structure St (R : Type) where
   mem : Mem R
@@ -143,8 +167,6 @@ structure SMask (R : Type) where
   neg : Bool
   a : SExpr R
   b : SExpr R
-
-variable [LT R] [DecidableLT R]
 
 def SMask.eval (m : Mem R) (k : SMask R) : Bool :=
   let t := decide (k.b.eval m < k.a.eval m)
@@ -177,6 +199,9 @@ inductive AExpr (R : Type)
   | div (a b : AExpr R)
   | neg (a : AExpr R)
   | noalias (a : AExpr R)
+  | max (a b : AExpr R)                         -- max(a, b), fmax(a, b)
+  | min (a b : AExpr R)                         -- min(a, b), fmin(a, b)
+  | abs (a : AExpr R)                           -- abs(a), fabs(a)
 deriving Repr
 
 def lookup (l : List Nat) (k : Nat) : Nat := l.getD k 0
@@ -200,14 +225,17 @@ def AExpr.at : AExpr R → List Nat → SExpr R
   | .div a b, ri => .div (a.at ri) (b.at ri)
   | .neg a, ri => .neg (a.at ri)
   | .noalias a, ri => .noalias (a.at ri)
+  | .max a b, ri => .max (a.at ri) (b.at ri)
+  | .min a b, ri => .min (a.at ri) (b.at ri)
+  | .abs a, ri => .abs (a.at ri)
 
 /-- E::n_arrays -/
 def AExpr.nArrays : AExpr R → Nat
   | .arr v => if v.dims.isEmpty then 0 else 1
   | .idx _ _ => 3
   | .const _ => 0
-  | .add a b | .sub a b | .mul a b | .div a b => a.nArrays + b.nArrays
-  | .neg a | .noalias a => a.nArrays
+  | .add a b | .sub a b | .mul a b | .div a b | .max a b | .min a b => a.nArrays + b.nArrays
+  | .neg a | .noalias a | .abs a => a.nArrays
 
 /-- set_location_: Array → `index_(i)`; IndexedArray → (row start in the indexed array with the last coordinate 0,
     the last coordinate, the element location) -/
@@ -218,8 +246,8 @@ def AExpr.setLoc : AExpr R → List Nat → List Int
     let j := ri.headD 0
     [row, (j : Int), row + v.rstrides.headD 0 * (lookup (rix.headD []) j : Int)]
   | .const _, _ => []
-  | .add a b, ri | .sub a b, ri | .mul a b, ri | .div a b, ri => a.setLoc ri ++ b.setLoc ri
-  | .neg a, ri | .noalias a, ri => a.setLoc ri
+  | .add a b, ri | .sub a b, ri | .mul a b, ri | .div a b, ri | .max a b, ri | .min a b, ri => a.setLoc ri ++ b.setLoc ri
+  | .neg a, ri | .noalias a, ri | .abs a, ri => a.setLoc ri
 
 /-- advance_location_ -/
 def AExpr.advLoc : AExpr R → List Int → List Int
@@ -232,9 +260,9 @@ def AExpr.advLoc : AExpr R → List Int → List Int
       [row, j, row + v.rstrides.headD 0 * (lookup (rix.headD []) j.toNat : Int)]
     else [row, j, l.getD 2 0]
   | .const _, _ => []
-  | .add a b, l | .sub a b, l | .mul a b, l | .div a b, l =>
+  | .add a b, l | .sub a b, l | .mul a b, l | .div a b, l | .max a b, l | .min a b, l =>
     a.advLoc (l.take a.nArrays) ++ b.advLoc (l.drop a.nArrays)
-  | .neg a, l | .noalias a, l => a.advLoc l
+  | .neg a, l | .noalias a, l | .abs a, l => a.advLoc l
 
 /-- value_at_location_ / calc_gradient_ read `loc[MyArrayNum]` (an IndexedArray reads `loc[MyArrayNum+2]`) -/
 def AExpr.atLoc : AExpr R → List Int → SExpr R
@@ -247,6 +275,10 @@ def AExpr.atLoc : AExpr R → List Int → SExpr R
   | .div a b, l => .div (a.atLoc (l.take a.nArrays)) (b.atLoc (l.drop a.nArrays))
   | .neg a, l => .neg (a.atLoc l)
   | .noalias a, l => .noalias (a.atLoc l)
+  -- `left.…<MyArrayNum,…>(loc, …)` and `right.…<MyArrayNum+L::n_arrays,…>(loc, …)`, in `is_left` as everywhere else
+  | .max a b, l => .max (a.atLoc (l.take a.nArrays)) (b.atLoc (l.drop a.nArrays))
+  | .min a b, l => .min (a.atLoc (l.take a.nArrays)) (b.atLoc (l.drop a.nArrays))
+  | .abs a, l => .abs (a.atLoc l)
 
 /-- `expr_cast<E>::is_vectorizable && rhs.all_arrays_contiguous()` (the packet-alignment part `columns_aligned_`
     is not modelled: whenever the test succeeds every array has innermost stride 1, which is all the loop uses) -/
@@ -254,8 +286,9 @@ def AExpr.contig : AExpr R → Bool
   | .arr v => v.dims.isEmpty || v.rstrides.headD 0 == 1
   | .idx _ _ => false
   | .const _ => true
-  | .add a b | .sub a b | .mul a b | .div a b => a.contig && b.contig
+  | .add a b | .sub a b | .mul a b | .div a b | .max a b | .min a b => a.contig && b.contig
   | .neg a | .noalias a => a.contig
+  | .abs _ => false            -- Abs::is_vectorized = false
 
 /-- next location: `++index` on every entry in the contiguous branch, `advance_location_` otherwise -/
 def AExpr.next (e : AExpr R) (l : List Int) : List Int :=
@@ -266,8 +299,8 @@ def AExpr.isActive (act : Nat → Bool) : AExpr R → Bool
   | .arr v => act v.sid
   | .idx v _ => act v.sid
   | .const _ => false
-  | .add a b | .sub a b | .mul a b | .div a b => a.isActive act || b.isActive act
-  | .neg a | .noalias a => a.isActive act
+  | .add a b | .sub a b | .mul a b | .div a b | .max a b | .min a b => a.isActive act || b.isActive act
+  | .neg a | .noalias a | .abs a => a.isActive act
 
 /-- Array::data_range, as the inclusive interval of element offsets touched -/
 def dataRange (v : View) : Int × Int :=
@@ -288,8 +321,8 @@ def AExpr.aliased (t : View) : AExpr R → Bool
     let (tb, te) := dataRange t
     v.sid == t.sid && decide (b ≤ te) && decide (e ≥ tb)
   | .const _ => false
-  | .add a b | .sub a b | .mul a b | .div a b => a.aliased t || b.aliased t
-  | .neg a => a.aliased t
+  | .add a b | .sub a b | .mul a b | .div a b | .max a b | .min a b => a.aliased t || b.aliased t
+  | .neg a | .abs a => a.aliased t
   | .noalias _ => false
 
 /-! ### traversal -/
@@ -323,7 +356,7 @@ def nRows (rd : List Nat) : Nat := prod rd.tail
 end Arr
 
 section Stmts
-variable {R : Type} [Zero R] [Add R] [Sub R] [Mul R] [Div R] [Neg R] [One R]
+variable {R : Type} [Zero R] [Add R] [Sub R] [Mul R] [Div R] [Neg R] [One R] [LT R] [DecidableLT R]
 
 /-- innermost loop of assign_expression_ (active target, active expression) -/
 def assignRow (t : View) (e : AExpr R) (s : St R) (ri : List Nat) (index : Int) : St R :=
@@ -398,8 +431,6 @@ def assign (t : View) (e : AExpr R) (tmpSid tmpG W : Nat) (s : St R) : St R :=
     let s2 := assignActive t (.arr tv) s1            -- assign_expression_<Rank,IsActive,E::is_active>(copy)
     { s2 with mem := s2.mem.filter (·.1 ≠ tmpSid) }
   else assignNoAliasCheck act t e s
-
-variable [LT R] [DecidableLT R]
 
 /-- where-mask at array level -/
 structure AMask (R : Type) where
@@ -557,10 +588,85 @@ def reduceStrip (f : RFun) (tot : Cell) (e : AExpr R) (k d : Nat) (res : View) (
   let s1 : St R := { a2.st with mem := a2.st.mem.store tot a2.val }
   elemStep s1 (res.sid, res.off + dotR rj res.rstrides) (.cell tot)
 
-/-- `reduce_dimension<Func>(rhs, dim, result)`: strips in index order of the result -/
+/-- `reduce_dimension<Func>(rhs, dim, result)` with the strips taken in index order of the result (the reference form;
+    `reduceDimLit` below transcribes the odometer of the C++ and is proved equal to it) -/
 def reduceDim (f : RFun) (tot : Cell) (e : AExpr R) (rd : List Nat) (k : Nat) (res : View) (s : St R) : St R :=
   let rrd := rd.take k ++ rd.drop (k + 1)
   (List.range (prod rrd)).foldl (fun s p => reduceStrip f tot e k (rd.getD k 0) res s (unflatR rrd p)) s
+
+/-! #### `reduce_dimension` with its own odometer, transcribed literally
+
+The active `reduce_dimension` keeps the full index `i` (rank entries; entry `reduce_dim` is driven by the inner loop) and
+the result index `inew` (rank-1 entries) side by side and advances both after every strip, walking the dimensions from the
+last outwards and stepping over the reduced one.  Lists are innermost first, `k` = position of the reduced dimension
+counted from the innermost, so "my_rank > reduce_dim" are the positions before `k`. -/
+
+/-- the walk once the reduced dimension is behind (`my_rank < reduce_dim`): `++i[my_rank]; ++inew[my_rank];
+    if (i[my_rank] >= dims[my_rank]) { i[my_rank] = 0; inew[my_rank] = 0; } else break;` — returns
+    (i, inew, my_rank < 0) -/
+def advBoth : List Nat → List Nat → List Nat → List Nat × List Nat × Bool
+  | d :: ds, i :: is, j :: js =>
+    if i + 1 ≥ d then
+      let (is', js', fin) := advBoth ds is js
+      (0 :: is', 0 :: js', fin)
+    else ((i + 1) :: is, (j + 1) :: js, false)
+  | _, is, js => (is, js, true)
+
+/-- `my_rank = E::rank; while (--my_rank >= 0) { if (my_rank == reduce_dim) continue; ++i[my_rank]; … }`: before the
+    reduced dimension (`my_rank > reduce_dim`) the partner of `i[my_rank]` is `inew[my_rank-1]` — in the innermost-first
+    lists both are the current heads -/
+def advStrip : List Nat → Nat → List Nat → List Nat → List Nat × List Nat × Bool
+  | _ :: ds, 0, i :: is, js =>              -- `if (my_rank == reduce_dim) continue;`
+    let (is', js', fin) := advBoth ds is js
+    (i :: is', js', fin)
+  | d :: ds, k + 1, i :: is, j :: js =>
+    if i + 1 ≥ d then
+      let (is', js', fin) := advStrip ds k is js
+      (0 :: is', 0 :: js', fin)
+    else ((i + 1) :: is, (j + 1) :: js, false)
+  | _, _, is, js => (is, js, true)
+
+/-- one strip: `i[reduce_dim] = 0; total = f.first_value(); for (; i[reduce_dim] < dims[reduce_dim]; ++i[reduce_dim])
+    { rhs.set_location(i, loc); f.accumulate_active(total, rhs, loc); } finish_active; result.get_lvalue(inew) = total` -/
+def reduceStripLit (f : RFun) (tot : Cell) (e : AExpr R) (k d : Nat) (res : View) (s : St R) (ri rj : List Nat) : St R :=
+  let s0 : St R := { s with tape := s.tape ++ [⟨s.mem.gidx tot, []⟩] }
+  let a0 : Acc R := ⟨s0, firstValue f, (f == .minval || f == .maxval), []⟩
+  let a1 := (List.range d).foldl (fun a x => accumulate f tot a (e.atLoc (e.setLoc (ri.set k x)))) a0
+  let a2 := finishActive f tot d a1
+  let s1 : St R := { a2.st with mem := a2.st.mem.store tot a2.val }
+  elemStep s1 (res.sid, res.off + dotR rj res.rstrides) (.cell tot)
+
+/-- the `do { strip; advance } while (my_rank >= 0)` loop -/
+def stripsLoop (f : RFun) (tot : Cell) (e : AExpr R) (rd : List Nat) (k : Nat) (res : View) :
+    Nat → List Nat → List Nat → St R → St R
+  | 0, _, _, s => s
+  | fuel + 1, ri, rj, s =>
+    let s' := reduceStripLit f tot e k (rd.getD k 0) res s ri rj
+    let (ri', rj', fin) := advStrip rd k ri rj
+    if fin then s' else stripsLoop f tot e rd k res fuel ri' rj' s'
+
+/-- `reduce_dimension<Func>(rhs, dim, result)` as coded: `i(0)`, `inew(0)`, one strip per element of the result -/
+def reduceDimLit (f : RFun) (tot : Cell) (e : AExpr R) (rd : List Nat) (k : Nat) (res : View) (s : St R) : St R :=
+  stripsLoop f tot e rd k res (prod (rd.take k ++ rd.drop (k + 1))) (zeros rd.length) (zeros (rd.length - 1)) s
+
+/-! ### diag_vector of an active rank-2 expression (reduce.h, section 5) -/
+
+/-- number of elements of diagonal `k` of a `d0 × d1` expression: `min(dims[0], dims[1]-offdiag)` for `offdiag ≥ 0`,
+    `min(dims[0]+offdiag, dims[1])` otherwise (the loops do not run when this is not positive) -/
+def diagLen (d0 d1 : Nat) (k : Int) : Nat :=
+  if k ≥ 0 then (min (d0 : Int) ((d1 : Int) - k)).toNat else (min ((d0 : Int) + k) (d1 : Int)).toNat
+
+/-- the index `i` set for element `j` (innermost first: `[i[1], i[0]]`): `i = (j, j+offdiag)` for `offdiag ≥ 0`,
+    `i = (j-offdiag, j)` otherwise -/
+def diagIx (k : Int) (j : Nat) : List Nat :=
+  if k ≥ 0 then [j + k.toNat, j] else [j, j + (-k).toNat]
+
+/-- `diag_vector(expr, offdiag)` for an active expression: per element `arg.set_location(i, ind)`,
+    `v.data()[j] = arg.next_value_and_gradient(stack, ind)`, `push_lhs(v.gradient_index()+j)`; `res` is the freshly
+    allocated vector `v` (unit stride) -/
+def diagVector (e : AExpr R) (d0 d1 : Nat) (k : Int) (res : View) (s : St R) : St R :=
+  (List.range (diagLen d0 d1 k)).foldl
+    (fun s (j : Nat) => elemStep s (res.sid, res.off + (j : Int)) (e.atLoc (e.setLoc (diagIx k j)))) s
 
 /-! ### spread and outer_product as zero-stride views -/
 
@@ -593,6 +699,10 @@ def denoteWhere [Zero R] [LT R] (t : View) (k : AMask R) (e : AExpr R) : List (S
 def denoteIdx (t : View) (rix : List (List Nat)) (e : AExpr R) : List (SStmt R) :=
   let rd := rix.map (·.length)
   (List.range (prod rd)).map (fun p => ⟨none, t.cellAt (xlate rix (unflatR rd p)), e.at (unflatR rd p)⟩)
+
+/-- `v = diag_vector(expr, k)`: `for j: v[j] = expr[j, j+k]` (`k ≥ 0`) resp. `v[j] = expr[j-k, j]` (`k < 0`) -/
+def denoteDiag (e : AExpr R) (d0 d1 : Nat) (k : Int) (res : View) : List (SStmt R) :=
+  (List.range (diagLen d0 d1 k)).map (fun (j : Nat) => ⟨none, (res.sid, res.off + (j : Int)), e.at (diagIx k j)⟩)
 
 end Denote
 
@@ -635,7 +745,7 @@ end DenoteReduce
 def SExpr.cellsOf {R : Type} : SExpr R → List Cell
   | .cell c => [c]
   | .const _ => []
-  | .add a b | .sub a b | .mul a b | .div a b => a.cellsOf ++ b.cellsOf
-  | .neg a | .noalias a => a.cellsOf
+  | .add a b | .sub a b | .mul a b | .div a b | .max a b | .min a b => a.cellsOf ++ b.cellsOf
+  | .neg a | .noalias a | .abs a => a.cellsOf
 
 end Adept.ArrayAD
